@@ -335,6 +335,15 @@ def probe_layer() -> J:
     rq("p_endmarker", [sid(), p_value("f", "emf"), u8const("marker", 0xFF), p_value("t", "u8")],
        "end-marker-field")
     rq("p_endmarker_last", [sid(), p_value("f", "emf")], "end-marker-field-last")
+    # ... whose termination DOP cannot convert every coded value (probing an item for the marker
+    # then ends with an error that concerns nobody)
+    from .codecgen import linear
+    dobjs.append(dop("lim_hi", dct_std("A_UINT32", 8), "A_UINT32",
+                     linear(0, 1, lo=(128, "CLOSED"), hi=(255, "CLOSED"))))
+    dobjs.append({"t": "EMFIELD", "name": "emf_lim", "struct": "st_item", "term_dop": "lim_hi",
+                  "term_value": 255})
+    rq("p_endmarker_lim", [sid(), p_value("f", "emf_lim"), u8const("marker", 0xFF), p_value("t", "u8")],
+       "end-marker-field-partial-dop")
     # 6 multiplexer
     dobjs.append(_struct("st_c1", [p_value("x", "u16")]))
     dobjs.append(_struct("st_c2", [p_value("y", "s8"), p_value("z", "u8")]))
